@@ -379,7 +379,7 @@ struct Explored {
 
 // slot 0: canonical encrypt producing the input for decrypt exploration (or the canonical op itself)
 // slot 1: the explored schedule; slot 2: canonical schedule of the explored operation
-static Explored explore(const Scn &s) {
+static Explored explore(const Scn &s, HangPolicy explored_hp = HANG_VIOLATION) {
   Explored X;
   X.T = (int)s.geti("T");
   long len = s.geti("len");
@@ -402,7 +402,7 @@ static Explored explore(const Scn &s) {
       SimFile fin, fout;
       fin.data = X.P;
       OpSpec e = base_op(s, OP_ENC, 1, &fin, &fout, len);
-      X.exp = run_slot(s, e, 1, "enc", HANG_VIOLATION);
+      X.exp = run_slot(s, e, 1, "enc", explored_hp);
       X.exp_ret = X.exp.ret;
       X.exp_out = fout.data;
     }
@@ -433,7 +433,7 @@ static Explored explore(const Scn &s) {
       SimFile fin, fout;
       fin.data = F;
       OpSpec d = base_op(s, OP_DEC, 1, &fin, &fout, (long)F.size());
-      X.exp = run_slot(s, d, 1, "dec", HANG_VIOLATION);
+      X.exp = run_slot(s, d, 1, "dec", explored_hp);
       X.exp_ret = X.exp.ret;
       X.exp_out = fout.data;
     }
@@ -482,7 +482,7 @@ static Verdict run_C03(const Scn &s) {
 static long plan_C14(const std::string &tier) { return plan_C03(tier); }
 
 static Verdict run_C14(const Scn &s) {
-  Explored X = explore(s);
+  Explored X = explore(s, HANG_MONITOR_ONLY);   // termination is C04's statement, not C14's
   if (X.skipped) return skip(X.skip_reason);
   Verdict v;
   v.case_hash = fnv1a_u64(cfg_hash(s), X.exp.sr.trace_hash);
